@@ -233,7 +233,9 @@ def run_case(case, rng):
         live = ~pinned_
         for i in np.nonzero(live)[0]:
             d = V[i] - sol_.V[i]
-            lo = -Bs[i] if (gamma < 1 or is_pi) else -1e-9 * sol_.scale
+            # (undiscounted value iteration approaches V* from above: only rounding may put it below - 1e-9 of the model's scale or a
+            # few ulps of the value itself, whichever is larger: values of 1e7 and more carry ulps of 2e-9)
+            lo = -Bs[i] if (gamma < 1 or is_pi) else -max(1e-9 * sol_.scale, 1e-12 * abs(float(sol_.V[i])))
             ok = (d >= lo) and (d <= Bs[i])
             case.check(ok, "state_value-outside-bound",
                        lambda: f"{name}: V[{S_[i]!r}]={V[i]!r} V*={sol_.V[i]!r} bound={Bs[i]:.3g}",
@@ -242,7 +244,7 @@ def run_case(case, rng):
                 if arr_.avail[i, j]:
                     dq = Q[i, j] - sol_.Q[i, j]
                     bq = Bs.max() if gamma == 1.0 else Bs[i]
-                    loq = -bq if (gamma < 1 or is_pi) else -1e-9 * sol_.scale
+                    loq = -bq if (gamma < 1 or is_pi) else -max(1e-9 * sol_.scale, 1e-12 * abs(float(sol_.Q[i, j])))
                     case.check(loq <= dq <= bq, "action_value-outside-bound",
                                lambda: f"{name}: Q[{S_[i]!r},{A_[j]!r}]={Q[i, j]!r} Q*={sol_.Q[i, j]!r} bound={bq:.3g}",
                                diff=float(dq), below_opt=bool(dq < 0), **facts)
